@@ -471,7 +471,57 @@ def c_glue():
     return "Definition gen_agentset_glue_ok : bool := true."
 
 
+# ------------------------------------------------------------------ GroupBy.count / GroupBy.agg: comprehension translated
+def _group_comp(name, params):
+    """`return {K: <value> for K, V in self.groups.items()}` -> (value expression, K, V)"""
+    fn = _fn(name, params, T._find_class(T._parse(SRC), "GroupBy"))
+    b = _body(fn)
+    if not (len(b) == 1 and isinstance(b[0], ast.Return) and isinstance(b[0].value, ast.DictComp)):
+        raise T.Broken(f"GroupBy.{name} is not a single dict comprehension")
+    dc = b[0].value
+    g = dc.generators
+    if not (len(g) == 1 and not g[0].ifs and ast.unparse(g[0].iter) == "self.groups.items()" and isinstance(g[0].target, ast.Tuple)
+            and len(g[0].target.elts) == 2 and all(isinstance(x, ast.Name) for x in g[0].target.elts)
+            and isinstance(dc.key, ast.Name) and dc.key.id == g[0].target.elts[0].id):
+        raise T.Broken(f"GroupBy.{name} is not `{{k: .. for k, v in self.groups.items()}}`")
+    return dc.value, g[0].target.elts[1].id
+
+
+def _gexpr(e, grp, agent=None):
+    """group-level expressions: len(<group>), <func>(<list>), [<elt> for a in <group>], getattr(a, attr_name)"""
+    if isinstance(e, ast.Call) and not e.keywords and len(e.args) == 1 and ast.unparse(e.func) == "len" \
+            and isinstance(e.args[0], ast.Name) and e.args[0].id == grp:
+        return "(Z.of_nat (length v))"
+    if isinstance(e, ast.Call) and not e.keywords and len(e.args) == 1 and ast.unparse(e.func) == "func":
+        return f"(func {_gexpr(e.args[0], grp, agent)})"
+    if isinstance(e, ast.ListComp) and len(e.generators) == 1 and not e.generators[0].ifs and isinstance(e.generators[0].target, ast.Name) \
+            and isinstance(e.generators[0].iter, ast.Name) and e.generators[0].iter.id == grp:
+        return f"(map (fun a => {_gexpr(e.elt, grp, e.generators[0].target.id)}) v)"
+    if isinstance(e, ast.Call) and not e.keywords and ast.unparse(e.func) == "getattr" and len(e.args) == 2 \
+            and isinstance(e.args[0], ast.Name) and e.args[0].id == agent and ast.unparse(e.args[1]) == "attr_name":
+        return "(getattr a)"
+    raise pyexpr.Unsupported(ast.unparse(e)[:60])
+
+
+def c_group_count():
+    val, grp = _group_comp("count", ["self"])
+    t = _tr("GroupBy.count", lambda: _gexpr(val, grp))
+    return ("Definition gen_group_count (groups : list (Z * list Z)) : list (Z * Z) :=\n"
+            f"  map (fun e => let '(k, v) := e in (k, {t})) groups.")
+
+
+def c_group_agg():
+    val, grp = _group_comp("agg", ["self", "attr_name", "func"])
+    t = _tr("GroupBy.agg", lambda: _gexpr(val, grp))
+    return ("Definition gen_group_agg {R : Type} (func : list Z -> R) (getattr : Z -> Z) (groups : list (Z * list Z))\n"
+            f"  : list (Z * R) :=\n  map (fun e => let '(k, v) := e in (k, {t})) groups.")
+
+
 CONSTRUCTS = [
+    ("agentset_groupby_count", SRC, c_group_count,
+     lambda: "Definition gen_group_count (groups : list (Z * list Z)) : list (Z * Z) := []."),
+    ("agentset_groupby_agg", SRC, c_group_agg,
+     lambda: "Definition gen_group_agg {R : Type} (func : list Z -> R) (getattr : Z -> Z) (groups : list (Z * list Z)) : list (Z * R) := []."),
     ("agentset_select_fast", SRC, c_select_fast, lambda: "Definition gen_select_fast (a b c : bool) : bool := negb c."),
     ("agentset_select_limit", SRC, c_select_limit, lambda: "Definition gen_select_limit (am_float : bool) (am_n am_d len at_most : Z) : Z := -1."),
     ("agentset_select_keep", SRC, c_select_keep, lambda: "Definition gen_select_keep (a b c d : bool) : bool := negb c."),
